@@ -303,6 +303,101 @@ fn run_wide_scalar(nb_bytes: Option<usize>, thorough: bool, seed: u64, part: &mu
     }
 }
 
+/// `assign_biguint(x, assigned_bits)` then `constrain_as_public_input(x, declared_bits)` followed by
+/// a native. Either synthesis refuses the mismatch, or the circuit must bind exactly
+/// `as_public_input(x, declared_bits) ‖ [y]`.
+#[derive(Clone)]
+struct BigDeclared {
+    assigned_bits: u32,
+    declared_bits: u32,
+}
+
+impl OpSpec for BigDeclared {
+    type In = (num_bigint::BigUint, F);
+
+    fn name(&self) -> String {
+        format!("AssignedBigUint/constrain[assigned {} bits, declared {} bits]+native", self.assigned_bits, self.declared_bits)
+    }
+    fn arch(&self) -> ZkStdLibArch {
+        arch_of(std::iter::once(Kind::Big(self.assigned_bits)))
+    }
+    fn synth(&self, std: &ZkStdLib, l: &mut impl Layouter<F>, input: Value<Self::In>) -> Result<(), Error> {
+        use midnight_circuits::{instructions::{AssignmentInstructions, PublicInputInstructions}, types::AssignedNative};
+        let g = std.biguint();
+        let a = g.assign_biguint(l, input.clone().map(|i| i.0), self.assigned_bits)?;
+        g.constrain_as_public_input(l, &a, self.declared_bits)?;
+        let y: AssignedNative<F> = std.assign(l, input.map(|i| i.1))?;
+        std.constrain_as_public_input(l, &y)
+    }
+    fn reference(&self, v: &Self::In) -> Option<Vec<F>> {
+        let mut e = Val::Big(v.0.clone(), self.declared_bits).encode_lib();
+        e.push(v.1);
+        Some(e)
+    }
+    fn n_input_positions(&self, _: &Self::In) -> usize {
+        0
+    }
+}
+
+fn run_big_declared(seed: u64, part: &mut Report, st: &mut ExpStats) {
+    use num_bigint::{BigUint, RandBigInt};
+    let mut rng = rng_for(seed, "big-declared");
+    for (assigned_bits, declared_bits) in [(96u32, 96u32), (96, 128), (64, 97), (100, 200), (1000, 1024), (192, 193), (96, 95)] {
+        let op = BigDeclared { assigned_bits, declared_bits };
+        let rel = OpRel(op.clone());
+        let sig = format!("C08/{}", op.name());
+        let x: BigUint = rng.gen_biguint(assigned_bits.min(declared_bits) as u64);
+        let y = F::from(42u64 + rng.gen_range(0..1000u64));
+        let input = (x.clone(), y);
+        let wit = json!({"op": op.name(), "x": format!("{x:x}"), "y": hexf(&y)});
+        part.eval();
+        st.honest += 1;
+        let expected = match catch_any(|| op.reference(&input)) {
+            Ok(Some(e)) => e,
+            _ => {
+                part.count("big-declared.offcircuit-refuses");
+                continue;
+            }
+        };
+        let k = match catch_any(|| MidnightCircuit::new(&rel, Value::unknown(), Value::unknown(), Some(8)).min_k()) {
+            Ok(k) => k,
+            Err(_) => {
+                // the mismatch is refused already when the circuit is laid out
+                part.count("big-declared.refused-at-layout");
+                part.nontrivial(&("big-declared", assigned_bits, declared_bits));
+                continue;
+            }
+        };
+        let circuit = MidnightCircuit::new(&rel, Value::known(expected.clone()), Value::known(input.clone()), Some(8));
+        match catch_any(|| collect::<F, _>(k, &circuit, &[vec![], expected.clone()], CollectOpts::default())) {
+            Err(_) | Ok(Err(_)) => {
+                part.count("big-declared.refused-at-synthesis");
+                part.nontrivial(&("big-declared", assigned_bits, declared_bits));
+                if assigned_bits == declared_bits {
+                    part.violation(&format!("{sig}/synthesis-error-on-admissible-input"), "exposure with the derived bound is refused", wit);
+                }
+            }
+            Ok(Ok(t)) => {
+                part.nontrivial(&("big-declared", assigned_bits, declared_bits));
+                let n_bound = mzv::engines::catalogue::bound_len(&t, 1);
+                let bound = mzv::engines::catalogue::bound_instance(&t, 1, &expected);
+                if n_bound != expected.len() || bound != expected || !t.violations(1).is_empty() {
+                    let mut w = wit.clone();
+                    w["circuit_binds"] = json!(hexv(&bound[..n_bound.min(bound.len())]));
+                    w["offcircuit_encoding"] = json!(hexv(&expected));
+                    part.violation(
+                        &format!("{sig}/count-mismatch"),
+                        &format!("the circuit accepts the declared bound but binds {n_bound} raw public inputs where AssignedBigUint::as_public_input(x, {declared_bits}) ‖ [y] has {}", expected.len()),
+                        w,
+                    );
+                } else {
+                    part.count("big-declared.accepted-and-consistent");
+                }
+            }
+        }
+    }
+}
+
 fn run_derived(kind: Kind, op: usize, thorough: bool, seed: u64, part: &mut Report, out: &mut JobOut) {
     let mut rng = rng_for(seed, &format!("derived-{kind:?}-{op}"));
     let b = val::boundary(kind);
@@ -647,6 +742,8 @@ enum Job {
     Derived { kind: Kind, op: usize },
     /// in-circuit injectivity of wide Jubjub scalars
     WideScalar { nb_bytes: Option<usize> },
+    /// BigUint exposed with a declared bound different from the derived one
+    BigDeclared,
 }
 
 impl Job {
@@ -672,6 +769,7 @@ impl Job {
             Job::Zkir { .. } => "zkir/publish".into(),
             Job::Derived { kind, op } => format!("{}/constrain-derived[{}]", kind.type_name(), val::DERIVED_OPS[*op]),
             Job::WideScalar { nb_bytes } => format!("jubjub-scalar/wide[{nb_bytes:?}]"),
+            Job::BigDeclared => "biguint/declared-bound".into(),
         }
     }
     fn weight(&self) -> usize {
@@ -691,6 +789,7 @@ impl Job {
             Job::Zkir { vals } => 2 * vals.len(),
             Job::Derived { kind, .. } => kw(kind) * 10,
             Job::WideScalar { .. } => 12,
+            Job::BigDeclared => 12,
         }
     }
 }
@@ -1000,6 +1099,23 @@ fn injectivity(kinds: &[Kind], n_random: usize, ctx: &Ctx, rep: &mut Report, exp
             }
             ok += 1;
             rep.nontrivial(&("inj", v.key()));
+            // a big integer beyond the declared bound must not be formatted like an admissible one
+            if let (Kind::Big(n), Val::Big(x, _)) = (kind, v) {
+                let limbs = n.div_ceil(val::BIG_LOG2_BASE).max(1);
+                for m in [1u32, 3] {
+                    let wide = x + (num_bigint::BigUint::from(m) << (val::BIG_LOG2_BASE * limbs) as usize);
+                    rep.eval();
+                    match catch_any(|| Val::Big(wide.clone(), n).encode_lib()) {
+                        Err(_) => rep.count("offcircuit.big.out-of-range.refused"),
+                        Ok(e2) if e2 == enc => rep.violation(
+                            &format!("{sig}/out-of-range-value-shares-an-encoding"),
+                            "the off-circuit encoder formats an integer beyond the declared bound exactly like an admissible one (documented: panics if the conversion is not possible)",
+                            json!({"value": format!("{v:?}"), "out_of_range": format!("{wide:x}"), "nb_bits": n, "encoding": hexv(&enc)}),
+                        ),
+                        Ok(_) => rep.count("offcircuit.big.out-of-range.other-encoding"),
+                    }
+                }
+            }
         }
         let e = table.entry(kind.type_name().to_string()).or_insert(json!({"values": 0, "decoded_back": 0}));
         e["values"] = json!(e["values"].as_u64().unwrap_or(0) + vals.len() as u64);
@@ -1320,6 +1436,7 @@ fn main() {
         for nb in [Some(32usize), Some(33), Some(40), None] {
             jobs.push(Job::WideScalar { nb_bytes: nb });
         }
+        jobs.push(Job::BigDeclared);
         // E': derived (un-normalised) emulated-field elements
         for (ki, kind) in [Kind::SecpBase, Kind::SecpScalar, Kind::BlsBase].into_iter().enumerate() {
             for op in 0..val::DERIVED_OPS.len() {
@@ -1552,6 +1669,7 @@ fn run_job(idx: usize, job: &Job, thorough: bool, seed: u64, proto: &Report) -> 
         Job::Zkir { vals } => zkir::check_publish(vals, part, &mut out.exp),
         Job::Derived { kind, op } => run_derived(*kind, *op, thorough, seed, part, out),
         Job::WideScalar { nb_bytes } => run_wide_scalar(*nb_bytes, thorough, seed, part, &mut out.exp),
+        Job::BigDeclared => run_big_declared(seed, part, &mut out.exp),
     };
     let mut out = JobOut { idx, key: job.key(), ..Default::default() };
     let mut part = proto.fork();
